@@ -160,6 +160,18 @@ pub struct LockScript {
     /// `between[k]`: commands issued after cycle k+1 has completed.
     #[serde(default)]
     pub between: Vec<Vec<BoundaryCmd>>,
+    /// Hook-level driver only: commands issued between two hook calls.
+    #[serde(default)]
+    pub gates: Vec<(GateSel, Vec<BoundaryCmd>)>,
+}
+
+/// Where a statement-level gate sits: before the hook call of a trace position.
+#[derive(Clone, Copy, Debug, PartialEq, Eq, Serialize, Deserialize)]
+pub struct GateSel {
+    /// Among the positions that are the first statement of a callee (the window between the
+    /// hook of a call statement and the hook of the callee's first statement).
+    pub after_call: bool,
+    pub idx: u16,
 }
 
 #[derive(Clone, Debug, PartialEq, Eq, Serialize, Deserialize)]
@@ -350,6 +362,7 @@ impl LockScript {
                     reactions,
                     entry: false,
                     between: gen_between(r, 3, 4, false),
+                    gates: vec![],
                 }
             }
             1 => {
@@ -357,6 +370,7 @@ impl LockScript {
                 LockScript {
                     entry: r.chance(1, 4),
                     between: vec![],
+                    gates: vec![],
                     bps: vec![],
                     pause: Some(ThreadSel::Unspecified),
                     early_step: None,
@@ -388,6 +402,7 @@ impl LockScript {
                         .collect(),
                     entry: false,
                     between: if writes { vec![] } else { gen_between(r, 1, 4, true) },
+                    gates: vec![],
                 }
             }
             _ => {
@@ -421,9 +436,61 @@ impl LockScript {
                         .collect(),
                     entry,
                     between: if writes { vec![] } else { gen_between(r, 1, 3, true) },
+                    gates: vec![],
                 }
             }
         }
+    }
+}
+
+impl LockScript {
+    /// Script for the hook-level driver: commands at statement-level gates while the
+    /// "program" runs (steps, pauses, continue, breakpoint edits), answered stops as usual.
+    pub fn generate_hook(r: &mut Reader) -> LockScript {
+        let bps = if r.chance(1, 2) {
+            gen_bps(r, &[0, 3, 2, 1])
+        } else {
+            vec![]
+        };
+        let ngates = 1 + r.pick(8);
+        let mut gates = Vec::new();
+        for _ in 0..ngates {
+            let sel = GateSel {
+                after_call: r.chance(3, 5),
+                idx: (r.word() >> 16) as u16,
+            };
+            let cmd = match r.weighted(&[8, 6, 2, 3, 1, 1, 1]) {
+                0 => BoundaryCmd::Step(Resume::StepOver(gate_sel(r))),
+                1 => BoundaryCmd::Step(Resume::StepOut(gate_sel(r))),
+                2 => BoundaryCmd::Step(Resume::StepIn(gate_sel(r))),
+                3 => gen_boundary_pause(r),
+                4 => BoundaryCmd::Continue,
+                5 => BoundaryCmd::SetBps(gen_bps(r, &[0, 3, 2, 1])),
+                _ => BoundaryCmd::ClearBps,
+            };
+            gates.push((sel, vec![cmd]));
+        }
+        let n = 2 + r.pick(16);
+        let reactions = (0..n)
+            .map(|_| gen_reaction(r, &[2, 3, 2, 8], false, false))
+            .collect();
+        LockScript {
+            bps,
+            pause: None,
+            early_step: None,
+            reactions,
+            entry: false,
+            between: vec![],
+            gates,
+        }
+    }
+}
+
+fn gate_sel(r: &mut Reader) -> ThreadSel {
+    match r.weighted(&[6, 3, 1]) {
+        0 => ThreadSel::Unspecified,
+        1 => ThreadSel::Other(r.pick(4) as u8),
+        _ => ThreadSel::Bogus,
     }
 }
 
